@@ -369,5 +369,21 @@ def dechunk : Nat → Bytes → Option (Bytes × Bytes)
         | some (body, tail) => some (rest.take n ++ body, tail)
         | none => none
 
+
+/-- a field value the serialisation is faithful for -/
+def ValueOk (v : Bytes) : Prop := cr ∉ v ∧ ∀ b, v.head? = some b → isOws b = false
+
+/-- what the request parser and the configuration parser guarantee about the byte strings
+    proxy_create_env() copies into the head: stored fields are `WfField`, no CR / leading blank in
+    the host, the proxy host id, the peer address text and the scheme; no CR in method and target -/
+structure HeadWf (c : Cfg) (r : Req) : Prop where
+  fields : ∀ f ∈ r.headers, WfField f
+  host : ∀ h, r.host = some h → ValueOk h
+  replaceHost : ∀ h, c.replaceHost = some h → ValueOk h
+  remoteAddr : ValueOk r.remoteAddr
+  scheme : ValueOk r.scheme
+  method : cr ∉ r.method
+  target : cr ∉ r.target
+
 end Proxy
 end LtVerif
